@@ -59,6 +59,9 @@ func newMonitor(r *runner, ucmp func(a, b []byte) int) *monitor {
 		}
 	}
 	d.H.OnMutate = func(op string, fd storage.FileDesc) {
+		if g := simrt.Cur(); g != nil {
+			r.mutBy[g.ID]++
+		}
 		if op == "create" {
 			switch fd.Type {
 			case storage.TypeTable:
@@ -458,14 +461,20 @@ func siteFunc(site string) string {
 }
 
 func hangFinger(h *simrt.HangReport) string {
-	var parts []string
+	// the set of sites at which client calls are stuck (not which calls: the
+	// same deadlock blocks whatever happens to be in flight)
+	set := map[string]bool{}
 	for _, g := range h.Goroutines {
-		if g.Name == "client" || strings.HasPrefix(g.Name, "client") || g.Op != "" {
+		if strings.HasPrefix(g.Name, "client") || g.Op != "" {
 			if g.State == "dead" {
 				continue
 			}
-			parts = append(parts, g.Op+"@"+siteFunc(g.Site))
+			set[siteFunc(g.Site)] = true
 		}
+	}
+	var parts []string
+	for p := range set {
+		parts = append(parts, p)
 	}
 	sort.Strings(parts)
 	return "hang:" + strings.Join(parts, ",")
